@@ -84,6 +84,10 @@ func propRegistry() map[string]PropSpec {
 		Level: "model_checking",
 		Harnesses: []HarnessSpec{
 			{Pkg: "cache", Fn: "Harness_C20_publication_immutable", Init: initCache, Reach: []string{"C20.pub.cacheable", "C20.pub.hfp"}, EngineOnly: true},
+			{Pkg: "cache", Fn: "Harness_C20_entry_discipline", Init: initCache, Reach: []string{"C20.entry-discipline.end"}, EngineOnly: true},
+			{Pkg: "cache", Fn: "Harness_C20_shard_discipline", Init: initCache, Reach: []string{"C20.shard-discipline.end"}, EngineOnly: true},
+			{Pkg: "server", Fn: "Harness_C20_server_discipline", Init: initServer, Reach: []string{"C20.server-discipline.end"}, EngineOnly: true},
+			{Pkg: "location", Fn: "Harness_C20_locations_discipline", Init: []string{"util", "location"}, Reach: []string{"C20.locations-discipline.end"}, EngineOnly: true},
 		},
 		BMC: []BMCSpec{
 			{Name: "entry3", Pkg: "cache", Fn: "Harness_BMC_entry3", Init: initCache, Only: []string{"race-free", "no-panic", "C02.hit-carries", "every-thread-completes"}},
@@ -109,12 +113,12 @@ func propRegistry() map[string]PropSpec {
 		Explanation: "Bounded symbolic execution of the real server.getCacheMaxAge (go/ssa of /repo's current source) against a short reference model written in the harness (differential oracle). Cache-Control, Age and Set-Cookie values are arbitrary ASCII byte strings up to the stated lengths (the length is case-split, the bytes are SMT variables); the regular expressions are taken from the real regexp.MustCompile literals and encoded as symbolic NFA simulations; strconv.Atoi is an engine intrinsic validated differentially. Every assertion instance is an SMT query (path condition AND NOT assertion) that z3 must answer unsat.",
 		Assumptions: []string{
 			"header bytes are ASCII (0x00-0x7f); non-ASCII bytes in Cache-Control/Age are outside the claim",
-			"Cache-Control joined length <= 13 bytes quick / 20 thorough (one line), 9+9 (two lines); Age <= 3 bytes (9 in the Age harness); longer values, and therefore int64 overflow of the numbers, are outside the claim",
+			"Cache-Control joined length <= 13 bytes quick / 16 thorough (one line), 9+9 (two lines); Age <= 3 bytes (9 in the Age harness); longer values, and therefore int64 overflow of the numbers, are outside the claim",
 			"regexp semantics: leftmost-first, modelled for MatchString (any pattern without word boundaries) and FindStringSubmatch (prefix + one class+ capture); strconv.Atoi modelled per its documented behaviour (sign, digits, saturation)",
 			"oracle = docs/cache-handler.md: Set-Cookie => 0; no Cache-Control => 0; contains no-cache/no-store/private (ASCII case-insensitive) => 0; first s-maxage=<digits> else first max-age=<digits>; minus Age when Age parses as a signed decimal",
 		},
 		Encoded: []string{"server.getCacheMaxAge"},
-		Bounds:  map[string]string{"cache-control": "<=13 (quick) / <=20 (thorough) bytes, two-line variant 9+9", "age": "<=3 bytes; <=9 in the Age harness", "set-cookie": "<=1 byte (presence)"},
+		Bounds:  map[string]string{"cache-control": "<=13 (quick) / <=16 (thorough) bytes, two-line variant 9+9", "age": "<=3 bytes; <=9 in the Age harness", "set-cookie": "<=1 byte (presence)"},
 	})
 
 	add(PropSpec{
